@@ -141,6 +141,12 @@ def split_chain(value):
             v = v[3]
             continue
         if v[0] == 'mcall' and v[2] in ('encode', 'decode'):
+            if v[1] in (('name', 'str'), ('name', 'bytes')) and v[3]:
+                # the unbound form str.encode(x, codec) / bytes.decode(x, codec)
+                enc, err = _args(v[3][1:], v[4], v[1][1] + '.' + v[2])
+                ops.insert(0, make_op(v[2], enc, err))
+                v = v[3][0]
+                continue
             if v[1] == ('name', 'codecs'):
                 if not v[3]:
                     break
